@@ -184,6 +184,7 @@ def run_impl(case):
     if set(case["approved"]) == set(common.CATS) and not obs["collect_errors"] and not obs["apply_error"] and after:
         o2 = impl_inline.run_program({"test_case.py": after}, case["flags"], case["approved"])
         second = {"changed": o2["files_after"].get("test_case.py", "") != after, "cats": sorted({c for s_ in o2["sites"] for c in s_["cats"]}),
+                  "R": o2["R"][0][1] if o2["R"] else None, "counters": [[t["missing"], t["incorrect"]] for t in o2["tests"]],
                   "errors": [o2["import_error"], o2["apply_error"], o2["collect_errors"]]}
     return {"second": second, "R": obs["R"][0][1] if obs["R"] else None, "tests": obs["tests"], "sites": sites, "finals": finals,
             "raw": raw, "observed": {str(k): v for k, v in observed.items()}, "src": src, "after": after,
@@ -205,6 +206,15 @@ def oracle(case, obs):
     sec = obs.get("second")
     if sec and not any(sec["errors"]):
         # deterministic test (same mutations every run): after a run with everything approved nothing is left to do
+        r1 = obs["R"] or []
+        clean_first = all(x is True or x is False for x in r1)          # no TypeError / UsageError paths in the first run
+        for i_, s_ in enumerate(case["sites"]):
+            seen_ = obs["observed"].get(str(i_), [])
+            if s_["role"] == "eq" and any(v != seen_[0] for v in seen_[1:]):
+                clean_first = False         # the test contradicts itself: one == snapshot compared with different values (exempt)
+        if clean_first and (any(x is not True for x in (sec["R"] or [])) or any(c != [0, 0] for c in sec["counters"])):
+            fails.append(("C08", "rerun_succeeds", f"after a run with all categories approved (it wrote {obs['raw']!r}) the same run again does not pass: "
+                          f"comparison results {sec['R']}, counters (missing, incorrect) per test {sec['counters']}"))
         if sec["changed"] or ({"create", "fix", "trim"} & set(sec["cats"])):
             fails.append(("C08", "rerun_noop", f"after a run with all categories approved the same run again reports {sec['cats']} and "
                           f"{'changes' if sec['changed'] else 'does not change'} the file; first run wrote {obs['raw']!r}"))
